@@ -962,8 +962,9 @@ class BaseWorkflow(object, metaclass=abc.ABCMeta):
                 List of absence step time in simulation.
         """
         for t in self.task_list:
-            if not isinstance(t, BaseSubProjectTask):
-                t.remove_absence_time_list(absence_time_list)
+            # BaseSubProjectTask stores a flag in an attribute named
+            # `remove_absence_time_list`, which shadows the method on the instance.
+            BaseTask.remove_absence_time_list(t, absence_time_list)
 
     def insert_absence_time_list(self, absence_time_list):
         """
@@ -974,8 +975,7 @@ class BaseWorkflow(object, metaclass=abc.ABCMeta):
                 List of absence step time in simulation.
         """
         for t in self.task_list:
-            if not isinstance(t, BaseSubProjectTask):
-                t.insert_absence_time_list(absence_time_list)
+            BaseTask.insert_absence_time_list(t, absence_time_list)
 
     def print_log(self, target_step_time):
         """
